@@ -22,7 +22,14 @@ FAULT_ERRNOS = {
     "truncate": [_errno.ENOSPC],
     "close": [_errno.EIO],
     "copymode": [_errno.EPERM],
+    "chmod": [_errno.EPERM],
+    "copystat": [_errno.EPERM],
+    "copyfile": [_errno.ENOSPC, _errno.EACCES],
+    "mkstemp": [_errno.ENOSPC, _errno.EACCES],
+    "makedirs": [_errno.EACCES],
     "replace": [_errno.EXDEV, _errno.EACCES],
+    "rename": [_errno.EXDEV, _errno.EACCES],
+    "link": [_errno.EPERM],
     # cleanup effects (remove / rmdir) are crash points only: making the cleanup itself fail
     # is an environment fault the library cannot be asked to survive
 }
@@ -152,17 +159,60 @@ class Patch:
                 return _PFile(fs, real, str(path))
             return builtins.open(path, mode, *a, **kw)
 
-        self.saved = (ed.os, ed.tempfile, ed.shutil, ed.__dict__.get("open"))
-        ed.os = _Proxy(_os, {"replace": replace, "remove": remove, "rmdir": rmdir})
-        ed.tempfile = _Proxy(_tempfile, {"mkdtemp": mkdtemp})
-        ed.shutil = _Proxy(_shutil, {"copymode": copymode})
+        def rename(a, b, **kw):
+            return fs.effect("rename", f"{base(str(a))}->{base(str(b))}", lambda: _os.rename(a, b, **kw))
+
+        def unlink(a, **kw):
+            return fs.effect("remove", base(str(a)), lambda: _os.unlink(a, **kw))
+
+        def chmod(a, mode, **kw):
+            return fs.effect("chmod", base(str(a)), lambda: _os.chmod(a, mode, **kw))
+
+        def link(a, b, **kw):
+            return fs.effect("link", f"{base(str(a))}->{base(str(b))}", lambda: _os.link(a, b, **kw))
+
+        def makedirs(a, *args, **kw):
+            if _os.path.isdir(a):
+                return _os.makedirs(a, *args, **kw)
+            return fs.effect("makedirs", base(str(a)), lambda: _os.makedirs(a, *args, **kw))
+
+        def mkstemp(*a, **kw):
+            return fs.effect("mkstemp", "tmpfile", lambda: _tempfile.mkstemp(*a, **kw))
+
+        def copystat(a, b, **kw):
+            return fs.effect("copystat", base(str(b)), lambda: _shutil.copystat(a, b, **kw))
+
+        def _copier(name):
+            def f(a, b, **kw):
+                return fs.effect("copyfile", f"{base(str(a))}->{base(str(b))}", lambda: getattr(_shutil, name)(a, b, **kw))
+
+            return f
+
+        def move(a, b, **kw):
+            return fs.effect("rename", f"{base(str(a))}->{base(str(b))}", lambda: _shutil.move(a, b, **kw))
+
+        def rmtree(a, *args, **kw):
+            return fs.effect("rmdir", "tmpdir(tree)", lambda: _shutil.rmtree(a, *args, **kw))
+
+        # a module the library does not import (any more) is simply not rebound
+        self.saved = {k: ed.__dict__[k] for k in ("os", "tempfile", "shutil", "open") if k in ed.__dict__}
+        if "os" in ed.__dict__:
+            ed.os = _Proxy(_os, {"replace": replace, "remove": remove, "rmdir": rmdir, "rename": rename, "unlink": unlink, "chmod": chmod,
+                                 "link": link, "makedirs": makedirs})
+        if "tempfile" in ed.__dict__:
+            ed.tempfile = _Proxy(_tempfile, {"mkdtemp": mkdtemp, "mkstemp": mkstemp})
+        if "shutil" in ed.__dict__:
+            ed.shutil = _Proxy(_shutil, {"copymode": copymode, "copystat": copystat, "copyfile": _copier("copyfile"), "copy": _copier("copy"),
+                                         "copy2": _copier("copy2"), "move": move, "rmtree": rmtree})
         ed.open = popen
         return fs
 
     def __exit__(self, *a):
-        ed.os, ed.tempfile, ed.shutil, o = self.saved
-        if o is None:
-            ed.__dict__.pop("open", None)
+        for k in ("os", "tempfile", "shutil"):
+            if k in self.saved:
+                setattr(ed, k, self.saved[k])
+        if "open" in self.saved:
+            ed.open = self.saved["open"]
         else:
-            ed.open = o
+            ed.__dict__.pop("open", None)
         return False
